@@ -151,6 +151,9 @@ impl Prop for C20 {
                                 continue;
                             }
                             n += 1;
+                            if n % 512 == 0 {
+                                crate::crumb::mark(ctx.case, &[(n / 512) as u32]);
+                            }
                             ctx.distinct_key(&name);
                             let e1 = reported("zzzwrong", &name);
                             let e2 = reported("Q", &name);
@@ -224,6 +227,9 @@ impl Prop for C20 {
                 let mut stack: Vec<Vec<usize>> = vec![vec![first]];
                 while let Some(seq) = stack.pop() {
                     n += 1;
+                    if n % 256 == 0 {
+                        crate::crumb::mark(ctx.case, &[(n / 256) as u32]);
+                    }
                     let key: Vec<u32> = seq.iter().map(|x| *x as u32).collect();
                     if ctx.replay.is_none() || ctx.replay.as_ref() == Some(&key) {
                         ctx.distinct_key(&seq);
